@@ -19,10 +19,10 @@ type MusCase struct {
 	Pre    [][]int `json:"pre,omitempty"`   // with Reuse: a certificate checked (and usually rejected) on the Problem before the extractions
 }
 
-// genMusBig: threshold 3-SAT over 8..12 variables: the solver really searches and learns
+// genMusBig: threshold 3-SAT over 8..14 variables: the solver really searches and learns
 // (units among the learned clauses), and the same Problem is used for several extractions.
 func genMusBig(r *Rng, tier string) MusCase {
-	n := r.Range(8, 12)
+	n := r.Range(8, 14)
 	m := int(float64(n)*4.6) + r.Range(0, n)
 	c := MusCase{NbVars: n, Cnf: genKSat(r, n, m, 3), Reuse: true, Big: true}
 	if r.Bool() {
